@@ -247,6 +247,14 @@ fn c06_wire(seed: u64, rep: &Report) -> Result<(), String> {
     pool.set("sharding_key_regex", "'/\\* sharding_key: (\\d+) \\*/'");
     pool.set("shard_id_regex", "'/\\* shard_id: (\\d+) \\*/'");
     pool.set("query_parser_read_write_splitting", "true");
+    // a third of the scenarios with activity-based primary routing on (reads of recently written
+    // tables, and everything during the initial delay, go to the primary: the ROLE may change, the
+    // shard of a key must not)
+    let activity = rng.chance(1, 3);
+    if activity {
+        pool.set("db_activity_based_routing", "true");
+        pool.set("db_activity_init_delay", *rng.pick(&["1", "400", "5000"]));
+    }
     let mut cfg = Cfg::new();
     cfg.pools.push(pool);
     cell.start_pgcat(&cfg, &StartOpts::default()).map_err(|e| format!("start: {:?}", e))?;
@@ -368,7 +376,7 @@ fn c06_wire(seed: u64, rep: &Report) -> Result<(), String> {
                 let want = format!("sh.s{}.primary.0", exp);
                 if at.len() != 1 || at[0] != want {
                     rep.violation(
-                        &format!("C06|statement_on_wrong_shard|path={}|func={}", path, func),
+                        &format!("C06|statement_on_wrong_shard|path={}|func={}{}", path, func, if activity { "|db_activity_based_routing" } else { "" }),
                         &format!("{} (key {}, {} shards, {}) ran on {:?}, PostgreSQL's partition is shard {}", qid, k, n, func, at, exp),
                         json!({"seed": seed, "key": k, "shards": n}),
                     );
